@@ -141,3 +141,4 @@ CFG['rule'] = CFG['rule'] + ' ' + 'Additions: flat indexes with a learned binary
 CFG['rule'] = CFG['rule'] + ' ' + 'A sixth configuration: in-memory backend with caching disabled (every read decodes from the store). Delete batches sometimes remove every live point (index structures with no entries).'
 
 CFG['rule'] = CFG['rule'] + ' ' + 'Every second history searches the (empty) vector indexes before anything is written; graph indexes also get one query without a pre-filter per step.'
+CFG['rule'] = CFG['rule'] + ' ' + 'One history in six has a graph index whose binary quantiser learns its threshold inside the history.'
